@@ -327,6 +327,28 @@ func afmCase(o *suiteOut, line string) {
 		if d := compareMetrics(m, back, true); d != "" {
 			o.fail("C15", "the reader understands the same data with bare CR line ends", line, "equal", d[:min(len(d), 200)])
 		}
+	case "afterfail":
+		// history: a Write that fails half-way (a writer that runs out of room at every possible size), then other
+		// metrics are written: what is written is that of the second value alone, and it reads back equal
+		m1, m2 := randMetrics(r), randMetrics(r)
+		good, err, pan := writeMetrics(m2)
+		if err != nil || pan != "" {
+			break
+		}
+		full, _, _ := writeMetrics(m1)
+		step := 1
+		if len(full) > 600 {
+			step = len(full) / 300
+		}
+		for cut := 0; cut < len(full); cut += step {
+			safeErr(func() error { return m1.Write(&faultWriter{failCall: -1, shortAt: cut}) })
+			again, err, pan := writeMetrics(m2)
+			if err != nil || pan != "" || !bytes.Equal(good, again) {
+				o.fail("C15", "what Write emits depends on the metrics value alone, not on an earlier Write that failed", fmt.Sprintf("%s (first write cut at byte %d)", line, cut), fmt.Sprintf("%d bytes", len(good)), fmt.Sprintf("%d bytes %v %v", len(again), err, pan))
+				break
+			}
+		}
+		afmrwLine(o, good)
 	case "longline":
 		// an accepted file whose written form has a line beyond bufio.Scanner's 64 kB token limit
 		var sb strings.Builder
@@ -418,6 +440,8 @@ func afmCase(o *suiteOut, line string) {
 func suiteAFM(o *suiteOut, r *rng, tier string, n int) {
 	afmCase(o, "afm 0 longline")
 	afmCase(o, "afm 1 longline2")
+	afmCase(o, "afm 4 afterfail")
+	afmCase(o, "afm 5 afterfail")
 	afmCase(o, "afm 2 barecr")
 	afmCase(o, "afm 3 barecr")
 	for _, l := range corpusLines("afm") {
